@@ -404,7 +404,11 @@ structure BuildOk (kind : Kind) (t : List Input) (vc : List Nat) (polys : List (
     if kind = .polygons then polys.map (fun p => p.length / strideOf t) else vc
   whole : polys.flatten.length % (itemWidth kind * strideOf t) = 0
   total : (kind = .polylist ∨ kind = .polygons) → pv.vcounts.sum = polys.flatten.length / strideOf t
-  empty : polys.flatten = [] → pv.all = []
+  empty : polys.flatten = [] →
+    pv.textangent = [] ∧ pv.texbinormal = [] ∧
+    (∃ vi, (sel .vertex t).head? = some vi ∧ pv.vertex = some (emptyView kind (strideOf t) vi)) ∧
+    pv.normal = (sel .normal t).head?.map (emptyView kind (strideOf t)) ∧
+    pv.texcoord = (sel .texcoord t).map (emptyView kind (strideOf t))
   views : polys.flatten ≠ [] →
     allOk (viewOf kind (strideOf t) polys.flatten) (checked t) = .ok pv.all ∧
     (∃ vi, (sel .vertex t).head? = some vi ∧ ∃ vv, pv.vertex = some vv ∧
@@ -452,9 +456,13 @@ theorem build_ok {kind : Kind} {t : List Input} {vc : List Nat} {polys : List (L
             exact hv ⟨hk, hc⟩
           by_cases hx : polys.flatten = []
           · rw [if_pos hx] at h
-            simp only [Except.ok.injEq] at h
-            subst h
-            exact ⟨hne, rfl, rfl, hr', hv', fun _ => rfl, fun hc => absurd hx hc⟩
+            cases hsv : sel .vertex t with
+            | nil => simp [hsv] at h
+            | cons vi rest =>
+              simp only [hsv, Except.ok.injEq] at h
+              subst h
+              exact ⟨hne, rfl, rfl, hr', hv',
+                fun _ => ⟨rfl, rfl, ⟨vi, by simp [hsv], rfl⟩, rfl, rfl⟩, fun hc => absurd hx hc⟩
           · rw [if_neg hx] at h
             cases hsv : sel .vertex t with
             | nil => simp [hsv] at h
@@ -491,6 +499,26 @@ theorem build_ok {kind : Kind} {t : List Input} {vc : List Nat} {polys : List (L
                           exact this
                         · exact ⟨vi, by simp [hsv], vv, rfl, h1⟩
                         · simpa [hnv] using h2
+
+/-- the views of an empty primitive: zero rows over the unchecked source of a validated input -/
+theorem BuildOk.emptyViews {kind : Kind} {t : List Input} {vc : List Nat} {polys : List (List Nat)}
+    {pv : PrimViews} (b : BuildOk kind t vc polys pv) (hx : polys.flatten = []) :
+    ∀ v ∈ pv.all, ∃ i ∈ checked t, v = emptyView kind (strideOf t) i := by
+  obtain ⟨hta, hbi, ⟨vi, hvi, hvv⟩, hn, htx⟩ := b.empty hx
+  intro v hv
+  simp only [PrimViews.all, hta, hbi, List.append_nil, List.mem_append, hvv, hn, htx] at hv
+  rcases hv with (hv | hv) | hv
+  · simp at hv
+    exact ⟨vi, by simp [checked, hvi], hv⟩
+  · cases hh : (sel Sem.normal t).head? with
+    | none => simp [hh] at hv
+    | some ni =>
+      simp [hh] at hv
+      exact ⟨ni, by simp [checked, hh], hv⟩
+  · obtain ⟨i, hi, rfl⟩ := List.mem_map.mp hv
+    refine ⟨i, ?_, rfl⟩
+    simp only [checked, List.mem_append]
+    exact Or.inl (Or.inl (Or.inr hi))
 
 theorem itemWidth_pos (k : Kind) : 0 < itemWidth k := by cases k <;> simp [itemWidth]
 
@@ -538,7 +566,10 @@ theorem build_error {kind : Kind} {t : List Input} {vc : List Nat} {polys : List
       · rw [if_pos hv2] at h; exact (Except.error.inj h).symm
       · rw [if_neg hv2] at h
         by_cases hx : polys.flatten = []
-        · rw [if_pos hx] at h; cases h
+        · rw [if_pos hx] at h
+          cases hsv : sel .vertex t with
+          | nil => exact absurd hsv hv
+          | cons vi rest => simp [hsv] at h
         · rw [if_neg hx] at h
           have hrow : 0 < polys.flatten.length / strideOf t :=
             rows_pos (length_pos_of_ne_nil hx) (itemWidth_pos kind) (strideOf_pos t) hr'
@@ -614,7 +645,10 @@ theorem build_total {kind : Kind} {t : List Input} {vc : List Nat} {polys : List
             polys.flatten.length / strideOf t) := fun hc => hc.2 (htot hc.1)
       rw [if_neg hv2] at hb
       by_cases hx : polys.flatten = []
-      · rw [if_pos hx] at hb; cases hb
+      · rw [if_pos hx] at hb
+        cases hsv : sel .vertex t with
+        | nil => exact absurd hsv hv
+        | cons vi rest => simp [hsv] at hb
       · rw [if_neg hx] at hb
         have hrow : 0 < polys.flatten.length / strideOf t :=
           rows_pos (length_pos_of_ne_nil hx) (itemWidth_pos kind) (strideOf_pos t) hw
